@@ -1,7 +1,7 @@
 (* C18 — Persistent-reference hooks are called as documented and invert each other. *)
 From Coq Require Import List ZArith NArith Bool.
 From Coq.Strings Require Import Byte.
-From OgRek Require Import Base Value Reader Decoder Encoder Norm TypingFacts HookFacts RoundTrip.
+From OgRek Require Import Base Value Reader Decoder Encoder Norm TypingFacts HookFacts ExecFacts RoundTrip.
 Import ListNotations.
 
 (* ---- Decode side: d_log is the list of Refs handed to PersistentLoad, most recent first ------- *)
@@ -41,6 +41,23 @@ Theorem C18_handle_ref : forall cfg st pid,
   end.
 Proof. exact handle_ref_spec. Qed.
 Print Assumptions C18_handle_ref.
+
+(* an error from the hook aborts Decode with an error, wherever in the stream the reference opcode
+   stands: whatever was executed before it (exec: any number of instructions from the start of
+   this Decode call reaching state st1 with the id on top), Decode returns the error and has
+   consumed the input up to and including the opcode; the failed call is in the log *)
+Theorem C18_hook_error_aborts : forall cfg f st inp i st1 pid t rest,
+  c_load cfg = Some f ->
+  exec cfg 0 (start_state st) inp i st1 (x51 :: rest) ->
+  d_stack st1 = pid :: t -> is_mark pid = false ->
+  f (Nlen (d_log st1)) pid = LErr ->
+  decode cfg st inp = ((Err EOther, add_log (set_stack st1 t) (VRef pid)), rest).
+Proof.
+  intros cfg f st inp i st1 pid t rest Hl E Hs Hm Hf.
+  eapply exec_decode_err; [exact E|reflexivity|reflexivity|].
+  cbn [handler]. rewrite Hs, Hm. unfold handle_ref. rewrite Hl. cbn [d_log set_stack]. rewrite Hf. reflexivity.
+Qed.
+Print Assumptions C18_hook_error_aborts.
 
 (* the Ref passed to the hook never contains the stack marker (C16's invariant covers d_log) *)
 
@@ -148,6 +165,5 @@ Example C18_graph_p0 :
 Proof. vm_compute. split; reflexivity. Qed.
 
 (* NOT PROVED (hence _partial): graphs that contain maps, Dicts or
-   structs encoded by value (outside norm), and the abort of Decode when the hook fails somewhere
-   inside a graph (the single step is C18_handle_ref).  Decided on every run by decoding the encoder
+   structs encoded by value (outside norm).  Decided on every run by decoding the encoder
    output again and by comparing the hook call logs with CPython's. *)
